@@ -235,6 +235,29 @@ def make_probe(desc, k):
                 A.Return(A.Call(A.Prop(V("this"), "down", False), [(A.Bin("-", V("n"), I(1)), False)]))])))),
                 P(A.Call(A.Prop(V(o), "down", False), [(I(4), False)]))]
             return {"stmts": stmts, "expect": ["R"], "tag": "special", "what": name}
+        if name == "this_is_the_nearest_object":
+            # `a.b.f()`: the receiver is the object the function was read from last, however long the path
+            stmts = [A.Declare(V(o), A.obj(("id", S("root")), ("f", A.FuncE([], False, [A.Return(A.Prop(V("this"), "id", False))])),
+                                            ("b", A.obj(("id", S("mid")), ("f", A.FuncE([], False, [A.Return(A.Prop(V("this"), "id", False))])),
+                                                        ("c", A.obj(("id", S("leaf")), ("f", A.FuncE([], False, [A.Return(A.Prop(V("this"), "id", False))])))))))),
+                     P(A.Call(A.Prop(V(o), "f", False), [])), P(A.Call(A.Prop(A.Prop(V(o), "b", False), "f", False), [])), P(A.Call(A.Prop(A.Prop(A.Prop(V(o), "b", False), "c", False), "f", False), [])),
+                     A.Declare(V(o + "g"), A.Prop(A.Prop(V(o), "b", False), "f", False)), P(A.Call(V(o + "g"), [])),
+                     A.Declare(V(o + "h"), A.Prop(A.Prop(A.Prop(V(o), "b", False), "c", False), "f", False)), P(A.Call(V(o + "h"), [])),
+                     P(A.Call(A.Prop(A.Index(A.Prop(V(o), "b", False), S("c")), "f", False), [])), P(A.Call(A.Index(A.Prop(A.Prop(V(o), "b", False), "c", False), S("f")), [])),
+                     A.Assign(A.Prop(A.Prop(A.Prop(V(o), "b", False), "c", False), "g", False), A.Prop(V(o), "f", False)), P(A.Call(A.Prop(A.Prop(A.Prop(V(o), "b", False), "c", False), "g", False), []))]
+            return {"stmts": stmts, "expect": ["root", "mid", "leaf", "mid", "leaf", "leaf", "leaf", "leaf"], "tag": "special", "what": name}
+        if name == "callee_evaluated_once":
+            # the callee expression runs once per call, whatever it contains
+            c = "cc%d" % k
+            stmts = [A.Declare(V(c), I(0)),
+                     A.FuncStmt("mk%d" % k, [V("t")], False, [A.OpAssign("+", V(c), I(1)), A.Return(A.FuncE([V("x")], False, [A.Return(A.lst(V("t"), V("x")))]))]),
+                     A.FuncStmt("ar%d" % k, [V("v")], False, [A.OpAssign("+", V(c), I(100)), A.Return(V("v"))]),
+                     P(A.Call(A.call("mk%d" % k, S("a")), [(A.call("ar%d" % k, I(1)), False)])), P(V(c)),
+                     A.Declare(V(o), A.obj(("m", A.FuncE([V("x")], False, [A.Return(V("x"))])))), A.FuncStmt("ob%d" % k, [], False, [A.OpAssign("+", V(c), I(1)), A.Return(V(o))]),
+                     P(A.Call(A.Prop(A.call("ob%d" % k), "m", False), [(A.call("ar%d" % k, I(2)), False)])), P(V(c)),
+                     A.FuncStmt("ky%d" % k, [], False, [A.OpAssign("+", V(c), I(1)), A.Return(S("m"))]), P(A.Call(A.Index(V(o), A.call("ky%d" % k)), [(I(3), False)])), P(V(c)),
+                     P(A.Call(A.Index(A.lst(A.call("mk%d" % k, S("b"))), I(0)), [(I(4), False)])), P(V(c))]
+            return {"stmts": stmts, "expect": render(["a", 1]) + ["101"] + ["2", "202"] + ["3", "203"] + render(["b", 4]) + ["204"], "tag": "special", "what": name}
         if name.startswith("placeholder_params_"):
             # `_` takes its argument like any parameter (and discards it): the parameters around it keep their own arguments
             n = int(name.rsplit("_", 1)[1])
@@ -270,7 +293,7 @@ FRESH = ["lone_rest_spread_is_fresh", "param_opassign_list", "rest_wraps_single_
          "rest_fresh_per_call", "params_fresh_per_call", "arg_expr_once"]
 SPECIAL = ["nested_fn_sees_enclosing_this", "this_is_the_object_itself", "method_mutates_this", "same_fn_two_objects",
            "this_outside_any_function", "callee_not_function", "recursion_keeps_this",
-           "placeholder_params_1", "placeholder_params_2", "placeholder_params_3", "placeholder_params_4"]
+           "this_is_the_nearest_object", "callee_evaluated_once", "placeholder_params_1", "placeholder_params_2", "placeholder_params_3", "placeholder_params_4"]
 
 
 def shapes(nargs_max, rng, limit):
